@@ -1,6 +1,6 @@
 import SFV.Model.Prov
-import SFV.Gen.ProvGuards
-/-! The persistence log re-assembled from what the source says (`SFV/Gen/ProvGuards.lean`, regenerated on every run). -/
+import SFV.Gen.ProvRowGuards
+/-! The persistence log re-assembled from what the source says (`SFV/Gen/ProvRowGuards.lean`, regenerated on every run). -/
 namespace SFV.Prov
 
 /-- the provenance row written for input id `i` when the new token has id `n`, as `add_provenance` writes it -/
